@@ -4,6 +4,7 @@ import Crusta.Proofs.SolveIDAux
 import Crusta.Proofs.Assemble
 import Crusta.Proofs.StaticAll
 import Crusta.Proofs.StoreIccma
+import Crusta.Proofs.GRename
 
 /-!
 # C11 — statuses are invariant under presentation and mutually consistent (property theorems)
@@ -145,5 +146,32 @@ theorem iccma_files_same_graph (n : Nat) (atts atts' : List (Nat × Nat))
     show (Store.ofIccma n atts).HasAtt a b ↔ (Store.ofIccma n atts').HasAtt a b
     rw [g1.2 a b, g2.2 a b]
     exact hsame (a, b)
+
+/-- **renaming the arguments** (on the solver programs): if the second view presents the graph
+obtained from the first by any bijective renaming `ρ` of the ids, the credulous and the skeptical
+status of the renamed query equal those of the original query — for every solver type, admissible
+encoders, sound reply lists, with or without certificate -/
+theorem solver_status_renaming_invariant (sk : SolverKind) (v1 v2 : FwView) (g : G) (ρ : Bij)
+    (hv1 : v1.Ok g) (hv2 : v2.Ok (g.rename ρ))
+    (args : List Nat) (hargs : ∀ a ∈ args, g.live a = true)
+    (cfg1 cfg2 : Cfg) (h1 : CfgOK sk cfg1) (h2 : CfgOK sk cfg2) (c1 c2 : Bool)
+    (w1 w2 : World) (hb1 : w1.Bounded) (hb2 : w2.Bounded) (rs1 rs2 : List Reply)
+    (a1 a2 : AccAns) (cv1 cv2 : Bool) (w1' w2' : World) :
+    (∀ p1 p2, entryProg sk cfg1 v1 (.dc c1 args) = some p1 →
+      entryProg sk cfg2 v2 (.dc c2 (args.map ρ.f)) = some p2 →
+      RunSound p1 rs1 w1 → RunSound p2 rs2 w2 →
+      interp p1 rs1 w1 = (.done (.acc a1 cv1), w1') → interp p2 rs2 w2 = (.done (.acc a2 cv2), w2') →
+      a1.status = a2.status) ∧
+    (∀ p1 p2, entryProg sk cfg1 v1 (.ds c1 args) = some p1 →
+      entryProg sk cfg2 v2 (.ds c2 (args.map ρ.f)) = some p2 →
+      RunSound p1 rs1 w1 → RunSound p2 rs2 w2 →
+      interp p1 rs1 w1 = (.done (.acc a1 cv1), w1') → interp p2 rs2 w2 = (.done (.acc a2 cv2), w2') →
+      a1.status = a2.status) :=
+  Crusta.solver_status_renaming_invariant sk v1 v2 g ρ hv1 hv2 args hargs cfg1 cfg2 h1 h2 c1 c2 w1 w2 hb1 hb2 rs1 rs2
+    a1 a2 cv1 cv2 w1' w2'
+
+/-- all seven semantics over sparse id spaces commute with bijective renamings -/
+theorem semantics_renaming_invariant (g : G) (ρ : Bij) (σ : Sem) (S : ASet) :
+    (g.rename ρ).Ext σ (ρ.image S) ↔ g.Ext σ S := G.ext_rename g ρ σ S
 
 end Crusta.C11
